@@ -69,6 +69,24 @@ def compute_ctc3(mm):
     return compute_ctc(mm, fl_channel=3)
 
 
+def get_crosstalk_settings(mm):
+    """Return all crosstalk matrix elements defined as a string
+
+    :func:`compute_ctc` uses every crosstalk matrix element defined in
+    the configuration, not only those required by a recipe. This method
+    is used as requirement function so that all of them become part of
+    the ancillary feature hash.
+    """
+    items = []
+    for i in [1, 2, 3]:
+        for j in [1, 2, 3]:
+            key = "crosstalk fl{}{}".format(i, j)
+            if i != j and key in mm.config["calculation"]:
+                items.append("{}={}".format(key,
+                                            mm.config["calculation"][key]))
+    return "crosstalk: " + ", ".join(items)
+
+
 def get_method(fl_channel):
     if fl_channel == 1:
         return compute_ctc1
@@ -109,6 +127,7 @@ def register():
                          method=get_method(flch),
                          req_features=opts_all[0],
                          req_config=[["calculation", opts_all[1]]],
+                         req_func=get_crosstalk_settings,
                          priority=1)
 
     for flch in [1, 2]:
@@ -116,6 +135,7 @@ def register():
                          method=get_method(flch),
                          req_features=opts_12[0],
                          req_config=[["calculation", opts_12[1]]],
+                         req_func=get_crosstalk_settings,
                          priority=0)
 
     for flch in [1, 3]:
@@ -123,6 +143,7 @@ def register():
                          method=get_method(flch),
                          req_features=opts_13[0],
                          req_config=[["calculation", opts_13[1]]],
+                         req_func=get_crosstalk_settings,
                          priority=0)
 
     for flch in [2, 3]:
@@ -130,4 +151,5 @@ def register():
                          method=get_method(flch),
                          req_features=opts_23[0],
                          req_config=[["calculation", opts_23[1]]],
+                         req_func=get_crosstalk_settings,
                          priority=0)
